@@ -79,7 +79,7 @@ broadcast use qv::qvalue_range;
 //@fn src/lib.rs :: fn should_gzip props=C16,C17 implicit=C16 rules=R10i,STD
 #[verifier::loop_isolation(false)]
 pub fn should_gzip(headers: &HeaderMap) -> (r: bool)
-    ensures /*@C16,C17 #rfc7231_preference*/ r == should_gzip_s(headers),
+    ensures /*@C16 #rfc7231_preference*/ r == should_gzip_s(headers),
 //@body
 //@ before "let mut it_ = parts;": let ghost es = sp_split(http::sp_to_str(v.bytes@).unwrap(), ',');
 //@ loop 1: invariant it_.rest@.len() <= es.len(), it_.rest@ =~= es.subrange(es.len() - it_.rest@.len(), es.len() as int),
